@@ -3,17 +3,17 @@ package main
 import (
 	"bytes"
 	"fmt"
-	"os"
-	"os/exec"
-	"path/filepath"
-	"strconv"
 	"go/ast"
 	"go/importer"
 	"go/parser"
 	"go/token"
 	"go/types"
 	"math/rand"
+	"os"
+	"os/exec"
+	"path/filepath"
 	"sort"
+	"strconv"
 	"strings"
 	"sync"
 	"time"
@@ -67,6 +67,11 @@ type qCase struct {
 	tuples   [][]string // per function: argument tuples in protocol form
 	args     [][][]interface{}
 	evals    [][]string // per function, per tuple: impl answer
+	model    [][]string // per function, per tuple: model answer (op qeval)
+	order    []int      // registration order of the natives (indices into qNatives)
+	offsets  [][2]int   // per declared function: byte range of its declaration in file
+	wideFrom []int      // per function: index of the first tuple added by the wide search (len(tuples) if none)
+	wideWhy  []string   // per function: why the wide search looked at it ("" = it did not)
 	features map[string]int
 }
 
@@ -122,6 +127,12 @@ func commaList(xs []string) string {
 // qBuild type-checks the program, compiles it with the real compiler (functions in order, each one
 // registered after it compiled, like ir_loader.compileFilterFuncs) and serialises it for the model.
 func qBuild(id int, p qProgram, r *rand.Rand) (*qCase, error) {
+	return qBuildOrder(id, p, func() []int { return r.Perm(len(qNatives)) })
+}
+
+// qBuildOrder is qBuild with a given registration order of the natives (the child process repeats the
+// parent's build with the parent's order).
+func qBuildOrder(id int, p qProgram, orderOf func() []int) (*qCase, error) {
 	c := &qCase{id: id, prog: p, file: p.file("qprog")}
 	if p.Raw != "" {
 		c.file = p.Raw
@@ -132,9 +143,12 @@ func qBuild(id int, p qProgram, r *rand.Rand) (*qCase, error) {
 	}
 	ser := newQSer(info)
 	env := quasigo.NewEnv()
-	order := r.Perm(len(qNatives))
 	var nat []string
-	for _, i := range order {
+	c.order = orderOf() // drawn after the type check: a rejected program consumes nothing from the stream
+	for _, i := range c.order {
+		if i < 0 || i >= len(qNatives) {
+			return nil, fmt.Errorf("bad native index %d", i)
+		}
 		n := qNatives[i]
 		env.AddNativeFunc(n.qual, n.name, n.f)
 		nat = append(nat, fmt.Sprintf("(%d %s.%s)", ser.key(n.qual, n.name), n.qual, n.name))
@@ -147,6 +161,7 @@ func qBuild(id int, p qProgram, r *rand.Rand) (*qCase, error) {
 			continue
 		}
 		c.decls = append(c.decls, fd)
+		c.offsets = append(c.offsets, [2]int{fset.Position(fd.Pos()).Offset, fset.Position(fd.End()).Offset})
 		c.sigs = append(c.sigs, info.ObjectOf(fd.Name).Type().(*types.Signature))
 		fns = append(fns, ser.funcDecl(pkg.Path(), fd))
 	}
@@ -176,7 +191,32 @@ func qBuild(id int, p qProgram, r *rand.Rand) (*qCase, error) {
 		fs = append(fs, qFormatFunc(fn))
 	}
 	c.compile = status + spaced(fs)
+	n := len(c.funcs)
+	c.tuples, c.args = make([][]string, n), make([][][]interface{}, n)
+	c.evals, c.model = make([][]string, n), make([][]string, n)
+	c.wideFrom, c.wideWhy = make([]int, n), make([]string, n)
 	return c, nil
+}
+
+// addTuples appends argument tuples to function fi (duplicates of tuples it already has are dropped) and
+// returns the index range of the new ones.
+func (c *qCase) addTuples(fi int, ts []string, as [][]interface{}) (lo, hi int) {
+	seen := map[string]bool{}
+	for _, t := range c.tuples[fi] {
+		seen[t] = true
+	}
+	lo = len(c.tuples[fi])
+	for i, t := range ts {
+		if seen[t] {
+			continue
+		}
+		seen[t] = true
+		c.tuples[fi] = append(c.tuples[fi], t)
+		c.args[fi] = append(c.args[fi], as[i])
+		c.evals[fi] = append(c.evals[fi], "")
+		c.model[fi] = append(c.model[fi], "")
+	}
+	return lo, len(c.tuples[fi])
 }
 
 var qArgInts = []int{0, 1, -1, 2, 3, 4, 5, 7, 10, -7, 100, 255, 256, 9223372036854775807, -9223372036854775808}
@@ -259,63 +299,167 @@ func qCallReal(ee *quasigo.EvalEnv, fn *quasigo.Func, sig *types.Signature, args
 	return out
 }
 
-// qGenTuples draws the argument tuples of every compiled function of the case.
-func qGenTuples(c *qCase, r *rand.Rand, nTuples int) {
+// qGenTuples draws the argument tuples of every compiled function of the case and returns the items to evaluate.
+func qGenTuples(c *qCase, r *rand.Rand, nTuples int) []qItem {
+	var items []qItem
 	for i := range c.funcs {
 		var ts []string
 		var as [][]interface{}
-		seen := map[string]bool{}
 		for k := 0; k < nTuples; k++ {
 			vals, s := qGenArgs(c.sigs[i], r)
-			if seen[s] {
-				continue
-			}
-			seen[s] = true
 			ts = append(ts, s)
 			as = append(as, vals)
 		}
-		c.tuples = append(c.tuples, ts)
-		c.args = append(c.args, as)
+		lo, hi := c.addTuples(i, ts, as)
+		c.wideFrom[i] = hi
+		if hi > lo {
+			items = append(items, qItem{c, i, lo, hi})
+		}
 	}
+	return items
 }
 
-// qEvalReal runs quasigo.Call on every tuple for which skip is false.  skip marks the tuples on which
-// the model (which agrees with the code on everything compared so far) does not finish within its fuel:
-// a miscompiled loop may not terminate, and a goroutine cannot be stopped.  A watchdog still guards the
-// rest: a run-away call aborts the harness with the offending input.
-func qEvalReal(c *qCase, skip [][]bool) error {
-	done := make(chan [][]string, 1)
-	var cur [2]int
-	var mu sync.Mutex
-	go func() {
-		ee := c.env.GetEvalEnv()
-		var all [][]string
-		for i, fn := range c.funcs {
-			var outs []string
-			for k, a := range c.args[i] {
-				if skip[i][k] {
-					outs = append(outs, "skipped")
-					continue
-				}
-				mu.Lock()
-				cur = [2]int{i, k}
-				mu.Unlock()
-				outs = append(outs, qCallReal(ee, fn, c.sigs[i], a))
-			}
-			all = append(all, outs)
+// qItem is a range of argument tuples of one function of one program.
+type qItem struct {
+	qc     *qCase
+	fi     int
+	lo, hi int
+}
+
+// qFuncTokens splits a compile answer ("ok f0 f1 …" / "err N f0 …") into its status and the compiled functions.
+func qFuncTokens(compile string) (string, []string) {
+	var st, fs []string
+	for _, t := range strings.Fields(compile) {
+		if strings.Contains(t, "/") {
+			fs = append(fs, t)
+		} else {
+			st = append(st, t)
 		}
-		done <- all
-	}()
-	select {
-	case all := <-done:
-		c.evals = all
-		return nil
-	case <-time.After(20 * time.Second):
-		mu.Lock()
-		defer mu.Unlock()
-		return fmt.Errorf("quasigo.Call did not return within 20s although the model terminates: func %d args %s of\n%s",
-			cur[0], c.tuples[cur[0]][cur[1]], c.file)
 	}
+	return strings.Join(st, " "), fs
+}
+
+// c04EvalItems: model first (op qeval), then the real VM in the child process, then the comparison.
+// A real call is not made when the model (which agrees with the code on everything compared so far) outgrows
+// its memory: the call would do the same.  Every other call is made, with the child's deadline as its step
+// bound: the answers "timeout" / "memory" / "died" are results like any other (where the model runs out of
+// fuel nothing is compared, but the reference semantics still judges the call's answer in c04Spec).
+func c04EvalItems(c *Ctx, rr *qReal, items []qItem, suite string, bytesDiffer map[*qCase]map[int]bool) error {
+	res := c.Res
+	var ops []string
+	for _, it := range items {
+		ops = append(ops, fmt.Sprintf("qeval %s %d %d %s %s", c04Fixes, c04Fuel, it.fi, strings.Join(it.qc.tuples[it.fi][it.lo:it.hi], ";"), it.qc.sexp))
+	}
+	ans, err := askPar(c.Drv, ops, 8)
+	if err != nil {
+		return err
+	}
+	if dump := os.Getenv("C04_DUMP"); dump != "" {
+		var sb strings.Builder
+		for i := range ops {
+			sb.WriteString(ops[i] + "\n=> " + ans[i] + "\n")
+		}
+		f, ferr := os.OpenFile(dump, os.O_APPEND|os.O_CREATE|os.O_WRONLY, 0o644)
+		if ferr == nil {
+			_, _ = f.WriteString(sb.String())
+			_ = f.Close()
+		}
+	}
+	for i, it := range items {
+		model := strings.Split(ans[i], " | ")
+		fill := ""
+		switch {
+		case ans[i] == "oom":
+			// the whole op (all tuples of this function) died in the model: make none of the calls
+			res.Dist("eval:model-out-of-memory")
+			fill = "oom"
+		case len(model) != it.hi-it.lo:
+			res.Disagree(hx.Disagreement{Suite: suite, Op: ops[i], Impl: "-", Model: ans[i]})
+			fill = "bad"
+		}
+		for k := it.lo; k < it.hi; k++ {
+			if fill != "" {
+				it.qc.model[it.fi][k] = fill
+			} else {
+				it.qc.model[it.fi][k] = model[k-it.lo]
+			}
+		}
+	}
+	tReal := time.Now()
+	defer func() {
+		if os.Getenv("C04_DEBUG") != "" {
+			fmt.Fprintf(os.Stderr, "C04_DEBUG real+compare %s: %.1fs\n", suite, time.Since(tReal).Seconds())
+		}
+	}()
+	for _, it := range items {
+		qc, fi := it.qc, it.fi
+		abandoned := false
+		for k := it.lo; k < it.hi; k++ {
+			m := qc.model[fi][k]
+			switch {
+			case m == "oom" || m == "bad":
+				qc.evals[fi][k] = "skipped"
+				continue
+			case abandoned || (rr.Timeouts >= 12 && bytesDiffer[qc][fi]):
+				// bounded cost of a failing run: one timeout per function and item, and after a dozen of them no
+				// more calls of functions that are already reported (their bytes differ from the model's)
+				qc.evals[fi][k] = "not-run"
+				res.Dist(suite + ":not-run-after-timeout")
+				continue
+			}
+			out, err := rr.Call(qc, fi, qc.tuples[fi][k])
+			if err != nil {
+				return err
+			}
+			if out == "timeout" && !rr.Confirmed {
+				// until one is confirmed, a timeout is repeated in a fresh child with three times the deadline
+				if out, err = rr.Confirm(qc, fi, qc.tuples[fi][k]); err != nil {
+					return err
+				}
+				if out != "timeout" {
+					rr.Timeouts--
+					res.Notes = append(res.Notes, fmt.Sprintf("a quasigo.Call answered only on the second attempt (machine under load?): program %d func %d args %s", qc.id, fi, qc.tuples[fi][k]))
+				} else {
+					// a run with a confirmed non-terminating call fails anyway: the later ones get a third of the deadline
+					rr.Confirmed = true
+					rr.deadline = qCallDeadline / 3
+				}
+			}
+			if out == "timeout" || out == "memory" || strings.HasPrefix(out, "died") {
+				abandoned = true
+				res.Dist(suite + ":real-call-" + out)
+				if os.Getenv("C04_DEBUG") != "" {
+					fmt.Fprintf(os.Stderr, "C04_DEBUG %s: program %d func %d args %s model %s\n%s\n", out, qc.id, fi, qc.tuples[fi][k], m, qc.file)
+				}
+			}
+			qc.evals[fi][k] = out
+		}
+	}
+	for _, it := range items {
+		qc, fi := it.qc, it.fi
+		src := qc.file
+		nontrivial := strings.Contains(src, "if ") || strings.Contains(src, "for ") || strings.Contains(src, "_f")
+		for k := it.lo; k < it.hi; k++ {
+			m, im := qc.model[fi][k], qc.evals[fi][k]
+			res.Count(suite, fmt.Sprintf("%d/%d/%s", qc.id, fi, qc.tuples[fi][k]), nontrivial)
+			switch {
+			case im == "not-run":
+				continue
+			case m == "fuel" || m == "unsup" || m == "oom" || m == "bad" || im == "skipped":
+				res.Dist(suite + ":skipped-" + m)
+				continue
+			case strings.HasPrefix(im, "panic:"):
+				res.Dist(suite + ":" + im)
+			default:
+				res.Dist(suite + ":" + strings.SplitN(im, ":", 2)[0])
+			}
+			if m != im {
+				res.Disagree(hx.Disagreement{Suite: suite, Op: fmt.Sprintf("qeval %s %d %d %s <prog>", c04Fixes, c04Fuel, fi, qc.tuples[fi][k]),
+					Impl: im, Model: m, Input: map[string]interface{}{"source": src, "func": fi, "args": qc.tuples[fi][k]}})
+			}
+		}
+	}
+	return nil
 }
 
 // qAskLimited pipes ops to one driver process whose address space is capped.  A miscompiled loop can
@@ -393,10 +537,20 @@ func qAskLimited(d *hx.Drv, ops []string) ([]string, error) {
 // askPar answers the ops with a pool of driver processes, a few hundred ops per process (small batches keep
 // the bisection after an out-of-memory death cheap).
 func askPar(d *hx.Drv, ops []string, workers int) ([]string, error) {
+	return askParChunk(d, ops, workers, 300)
+}
+
+func askParChunk(d *hx.Drv, ops []string, workers, chunk int) ([]string, error) {
 	if len(ops) == 0 {
 		return nil, nil
 	}
-	const chunk = 300
+	if os.Getenv("C04_DEBUG") != "" {
+		t0 := time.Now()
+		_ = os.WriteFile(fmt.Sprintf("/tmp/c04ops-%s-%d.txt", strings.SplitN(ops[0], " ", 2)[0], len(ops)), []byte(strings.Join(ops, "\n")+"\n"), 0o644)
+		defer func() {
+			fmt.Fprintf(os.Stderr, "C04_DEBUG askPar %s x%d: %.1fs\n", strings.SplitN(ops[0], " ", 2)[0], len(ops), time.Since(t0).Seconds())
+		}()
+	}
 	out := make([]string, len(ops))
 	type job struct{ lo, hi int }
 	jobs := make(chan job)
@@ -438,15 +592,22 @@ func askPar(d *hx.Drv, ops []string, workers int) ([]string, error) {
 
 func runC04(c *Ctx) error {
 	res := c.Res
+	if os.Getenv("C04_ONLY_NATIVES") != "" {
+		return c04Natives(c) // debugging aid: part 2 alone
+	}
 	nProg, nTuples := 400, 5
 	if c.Thorough {
 		nProg, nTuples = 15000, 8
 	}
 	res.Rule = fmt.Sprintf("%d generated programs (2-5 functions each: nested if/else with nested returns, loops with break, "+
+		"nested loops followed by a way out of the outer loop (if/else/nested-if/bare break, counter advanced at the top, middle or end of the body; "+
+		"one function in five starts with such a shape so that every argument tuple executes it), "+
 		"&&/|| in every expression position, calls between functions, strings/strconv/fmt natives, slicing, up to 8 locals) "+
-		"type-checked by go/types; real quasigo.Compile bytes+pools+frame sizes == model compile (op qcompile), real quasigo.Call == model "+
-		"eval on %d argument tuples per function (op qeval); a case is non-trivial when the function has a branch, loop or call; "+
-		"distinct by (program source, function, arguments)", nProg, nTuples)
+		"type-checked by go/types; real quasigo.Compile bytes+pools+frame sizes == model compile (op qcompile), real quasigo.Call (made in a child "+
+		"process with a deadline as step bound and a memory cap) == model eval on %d argument tuples per function (op qeval); functions whose bytes or "+
+		"answers differ from the model's, their callers and a sample of the others are run again over a structured argument set (boundary ints, all bool "+
+		"combinations, strings of several lengths: suite eval-wide); every answer is judged by the reference semantics and go run; "+
+		"a case is non-trivial when the function has a branch, loop or call; distinct by (program source, function, arguments)", nProg, nTuples)
 
 	rng := hx.Rng(c.Seed, "c04-programs")
 	argRng := hx.Rng(c.Seed, "c04-args")
@@ -551,115 +712,77 @@ func runC04(c *Ctx) error {
 	}
 
 	// suite 2: quasigo.Call == model eval
-	ops, impl, inputs = nil, nil, nil
-	type ref struct{ c, f int }
-	var refs []ref
-	for ci, qc := range cases {
-		if sa, ok := stressArgs[qc]; ok {
-			// fixed arguments around the encoding limit for the first function, drawn ones for the others
-			for fi := range qc.funcs {
-				if fi == 0 {
-					var ts []string
-					for _, a := range sa {
-						ts = append(ts, fmt.Sprintf("i:%d", a[0].(int)))
-					}
-					qc.tuples = append(qc.tuples, ts)
-					qc.args = append(qc.args, sa)
-					continue
-				}
-				vals1, s1 := []interface{}{true, 5}, "b:1,i:5"
-				vals2, s2 := []interface{}{false, 5}, "b:0,i:5"
-				qc.tuples = append(qc.tuples, []string{s1, s2})
-				qc.args = append(qc.args, [][]interface{}{vals1, vals2})
-			}
-		} else {
-			qGenTuples(qc, argRng, nTuples)
-		}
-		for fi := range qc.funcs {
-			if len(qc.tuples[fi]) == 0 {
-				continue
-			}
-			ops = append(ops, fmt.Sprintf("qeval %s %d %d %s %s", c04Fixes, c04Fuel, fi, strings.Join(qc.tuples[fi], ";"), qc.sexp))
-			refs = append(refs, ref{ci, fi})
-		}
-	}
-	ans, err = askPar(c.Drv, ops, 8)
+	rr, err := newQReal()
 	if err != nil {
 		return err
 	}
-	if dump := os.Getenv("C04_DUMP"); dump != "" {
-		var sb strings.Builder
-		for i := range ops {
-			sb.WriteString(ops[i] + "\n=> " + ans[i] + "\n")
-		}
-		_ = os.WriteFile(dump, []byte(sb.String()), 0o644)
-	}
-	// the implementation is run after the model so that calls the model predicts not to terminate are skipped
-	skips := map[*qCase][][]bool{}
+	defer rr.Close()
+	var items []qItem
 	for _, qc := range cases {
-		sk := make([][]bool, len(qc.funcs))
+		if sa, ok := stressArgs[qc]; ok {
+			// fixed arguments around the encoding limit for the first function, drawn ones for the others
+			for fi := range qc.funcs {
+				var ts []string
+				var as [][]interface{}
+				if fi == 0 {
+					for _, a := range sa {
+						ts = append(ts, fmt.Sprintf("i:%d", a[0].(int)))
+					}
+					as = sa
+				} else {
+					ts = []string{"b:1,i:5", "b:0,i:5"}
+					as = [][]interface{}{{true, 5}, {false, 5}}
+				}
+				lo, hi := qc.addTuples(fi, ts, as)
+				qc.wideFrom[fi] = hi
+				items = append(items, qItem{qc, fi, lo, hi})
+			}
+		} else {
+			items = append(items, qGenTuples(qc, argRng, nTuples)...)
+		}
+	}
+	// functions whose compiled form differs from the model's (suite 1)
+	bytesDiffer := map[*qCase]map[int]bool{}
+	for i, qc := range cases {
+		bytesDiffer[qc] = map[int]bool{}
+		if ans[i] == impl[i] {
+			continue
+		}
+		ist, ifs := qFuncTokens(impl[i])
+		mst, mfs := qFuncTokens(ans[i])
 		for fi := range qc.funcs {
-			sk[fi] = make([]bool, len(qc.tuples[fi]))
-		}
-		skips[qc] = sk
-	}
-	for i := range ops {
-		qc := cases[refs[i].c]
-		if ans[i] == "oom" {
-			// the whole op (all tuples of this function) died in the model: make none of the calls
-			for k := range skips[qc][refs[i].f] {
-				skips[qc][refs[i].f][k] = true
-			}
-			res.Dist("eval:model-out-of-memory")
-			continue
-		}
-		for k, m := range strings.Split(ans[i], " | ") {
-			if m == "fuel" && k < len(skips[qc][refs[i].f]) {
-				skips[qc][refs[i].f][k] = true
+			if ist != mst || fi >= len(ifs) || fi >= len(mfs) || ifs[fi] != mfs[fi] {
+				bytesDiffer[qc][fi] = true
 			}
 		}
 	}
+	// … and the functions that call them (a function may call the functions before it)
 	for _, qc := range cases {
-		if err := qEvalReal(qc, skips[qc]); err != nil {
-			return err
-		}
-	}
-	for i := range ops {
-		impl = append(impl, strings.Join(cases[refs[i].c].evals[refs[i].f], " | "))
-	}
-	for i := range ops {
-		qc := cases[refs[i].c]
-		fi := refs[i].f
-		model := strings.Split(ans[i], " | ")
-		if ans[i] == "oom" {
-			continue
-		}
-		if len(model) != len(qc.evals[fi]) {
-			res.Disagree(hx.Disagreement{Suite: "eval", Op: ops[i], Impl: impl[i], Model: ans[i]})
-			continue
-		}
-		src := qc.file
-		nontrivial := strings.Contains(src, "if ") || strings.Contains(src, "for ") || strings.Contains(src, "_f")
-		for k, m := range model {
-			im := qc.evals[fi][k]
-			res.Count("eval", fmt.Sprintf("%d/%d/%s", qc.id, fi, qc.tuples[fi][k]), nontrivial)
-			switch {
-			case m == "fuel" || m == "unsup" || im == "skipped":
-				res.Dist("eval:skipped-" + m)
+		for fi := range qc.funcs {
+			if bytesDiffer[qc][fi] {
 				continue
-			case strings.HasPrefix(im, "panic:"):
-				res.Dist("eval:" + im)
-			case im == "timeout":
-				res.Dist("eval:timeout")
-			default:
-				res.Dist("eval:" + strings.SplitN(im, ":", 2)[0])
 			}
-			if m != im {
-				res.Disagree(hx.Disagreement{Suite: "eval", Op: fmt.Sprintf("qeval %s %d %d %s <prog>", c04Fixes, c04Fuel, fi, qc.tuples[fi][k]),
-					Impl: im, Model: m, Input: map[string]interface{}{"source": src, "func": fi, "args": qc.tuples[fi][k]}})
+			body := qc.file[qc.declOffset(fi):qc.declEnd(fi)]
+			for fj := 0; fj < fi; fj++ {
+				if bytesDiffer[qc][fj] && strings.Contains(body, qc.decls[fj].Name.Name+"(") {
+					bytesDiffer[qc][fi] = true
+					res.Dist("compile:caller-of-a-function-that-differs")
+					break
+				}
 			}
 		}
 	}
+	if err := c04EvalItems(c, rr, items, "eval", bytesDiffer); err != nil {
+		return err
+	}
+	// suite 2w: the wide argument search
+	if err := c04Wide(c, rr, cases, stressArgs, bytesDiffer); err != nil {
+		return err
+	}
+	if rr.Timeouts > 0 {
+		res.Notes = append(res.Notes, fmt.Sprintf("%d real call(s) did not return within the deadline (%v; the first one repeated with %v)", rr.Timeouts, qCallDeadline, 3*qCallDeadline))
+	}
+	rr.Close()
 	if err := c04Spec(c, cases, nTuples); err != nil {
 		return err
 	}
@@ -689,6 +812,7 @@ type qPoint struct {
 	f, k int
 	impl string
 	spec string
+	wide bool // the tuple comes from the wide argument search
 }
 
 func c04Spec(c *Ctx, cases []*qCase, nTuples int) error {
@@ -728,27 +852,70 @@ func c04Spec(c *Ctx, cases []*qCase, nTuples int) error {
 		}
 		for k, s := range spec {
 			res.Count("spec", fmt.Sprintf("%d/%d/%s", qc.id, fi, qc.tuples[fi][k]), true)
+			wide := k >= qc.wideFrom[fi]
 			if s == "fuel" || s == "unsup" || s == "stuck" {
 				res.Dist("spec:skipped-" + s)
 				continue
 			}
-			if qc.evals[fi][k] == "skipped" {
-				// the model predicts that quasigo.Call does not terminate here although the function does in Go
+			im := qc.evals[fi][k]
+			if im == "not-run" {
+				res.Dist("spec:not-run-after-timeout")
+				continue
+			}
+			if im == "skipped" {
+				// the model predicts that quasigo.Call runs out of memory here although the function ends in Go
 				res.Dist("spec:call-does-not-terminate")
-				pt := qPoint{c: qc, f: fi, k: k, impl: "no result within the fuel (model prediction; the call is not made)", spec: s}
+				pt := qPoint{c: qc, f: fi, k: k, impl: "no result within the memory cap (model prediction; the call is not made)", spec: s, wide: wide}
 				points = append(points, pt)
 				wrong = append(wrong, pt)
 				continue
 			}
-			pt := qPoint{c: qc, f: fi, k: k, impl: qc.evals[fi][k], spec: s}
-			points = append(points, pt)
+			pt := qPoint{c: qc, f: fi, k: k, impl: im, spec: s, wide: wide}
 			if pt.impl != s {
+				points = append(points, pt)
 				wrong = append(wrong, pt)
 				res.Dist("spec:call-differs")
+				if wide {
+					res.Dist("wide:call-differs")
+				}
 			} else {
+				// `go run` sees every drawn tuple and every fifth agreeing tuple of the wide search
+				if !wide || k%5 == 0 {
+					points = append(points, pt)
+				}
 				res.Dist("spec:call-agrees")
+				if wide {
+					res.Dist("wide:call-agrees")
+				}
 			}
 		}
+	}
+	if os.Getenv("C04_DEBUG") != "" {
+		for _, qc := range cases {
+			for fi := range qc.funcs {
+				if qc.wideWhy[fi] == "" || qc.wideWhy[fi] == "sampled" {
+					continue
+				}
+				cnt := map[string]int{}
+				for k := range qc.tuples[fi] {
+					cnt[strings.SplitN(qc.evals[fi][k], ":", 2)[0]+"/"+strings.SplitN(qc.model[fi][k], ":", 2)[0]]++
+				}
+				fmt.Fprintf(os.Stderr, "C04_DEBUG wide %s program %d func %d: impl/model %v\n%s\n", qc.wideWhy[fi], qc.id, fi, cnt, qc.file[qc.declOffset(fi):qc.declEnd(fi)])
+			}
+		}
+	}
+	// per function the first three wrong tuples (the wide search can make every tuple of a function wrong)
+	{
+		perFunc := map[[2]int]int{}
+		var kept []qPoint
+		for _, w := range wrong {
+			key := [2]int{w.c.id, w.f}
+			if perFunc[key] < 3 {
+				perFunc[key]++
+				kept = append(kept, w)
+			}
+		}
+		wrong = kept
 	}
 
 	// `go run` of the same sources must print what the reference semantics says
@@ -756,7 +923,57 @@ func c04Spec(c *Ctx, cases []*qCase, nTuples int) error {
 		return err
 	}
 
-	// attribute each wrong answer to the smallest set of repairs that removes it (smallest programs first)
+	// A wrong answer on which the code also leaves its model (the model under c04Fixes computes something else than
+	// quasigo.Call did) is a failing input of the property in its own right: no repair of the model explains it.
+	// The signature names how the call fails; the witness is the first such tuple of the smallest function.
+	var deviates, shared []qPoint
+	for _, w := range wrong {
+		// (the model answers "unsup" — a native the model VM does not execute — and "fuel" are no opinion)
+		if m := w.c.model[w.f][w.k]; w.c.evals[w.f][w.k] != "skipped" && m != "unsup" && m != "fuel" && m != w.impl {
+			deviates = append(deviates, w)
+		} else {
+			shared = append(shared, w)
+		}
+	}
+	// witnesses in functions where the deviation originates (no callee of theirs deviates) come first, smallest first
+	devFuncs := map[*qCase]map[int]bool{}
+	for _, w := range deviates {
+		if devFuncs[w.c] == nil {
+			devFuncs[w.c] = map[int]bool{}
+		}
+		devFuncs[w.c][w.f] = true
+	}
+	derived := func(w qPoint) bool {
+		body := w.c.file[w.c.declOffset(w.f):w.c.declEnd(w.f)]
+		for fj := range devFuncs[w.c] {
+			if fj != w.f && strings.Contains(body, w.c.decls[fj].Name.Name+"(") {
+				return true
+			}
+		}
+		return false
+	}
+	sort.SliceStable(deviates, func(i, j int) bool {
+		a, b := deviates[i], deviates[j]
+		if da, db := derived(a), derived(b); da != db {
+			return db
+		}
+		return a.c.declEnd(a.f)-a.c.declOffset(a.f) < b.c.declEnd(b.f)-b.c.declOffset(b.f)
+	})
+	for _, w := range deviates {
+		sig, what := qDeviationKind(w.impl, w.spec)
+		res.Dist("deviation:" + sig)
+		in := map[string]interface{}{"source": w.c.file, "func": w.c.decls[w.f].Name.Name, "args": w.c.tuples[w.f][w.k],
+			"model": w.c.model[w.f][w.k], "found_by": "drawn arguments"}
+		if w.wide {
+			in["found_by"] = "wide argument search (" + w.c.wideWhy[w.f] + ")"
+		}
+		res.Violate(hx.Violation{Signature: sig, What: what + "; the model of the compiler and the VM computes " + w.c.model[w.f][w.k] +
+			" here, so the code no longer behaves like its model either", Input: in, Impl: w.impl, Spec: w.spec})
+	}
+	wrong = shared
+
+	// attribute each remaining wrong answer (shared by the code and its model) to the smallest set of repairs that
+	// removes it (smallest programs first)
 	sort.SliceStable(wrong, func(i, j int) bool {
 		// the stress programs (encoding limits) first: they are large but each of them probes a specific defect
 		si, sj := wrong[i].c.id >= 1000000, wrong[j].c.id >= 1000000
@@ -779,13 +996,57 @@ func c04Spec(c *Ctx, cases []*qCase, nTuples int) error {
 		}
 		wrong = pick
 	}
-	ops = nil
-	for _, w := range wrong {
-		ops = append(ops, fmt.Sprintf("qexplain %s %d %d %s %s", c04Fixes, c04Fuel, w.f, w.c.tuples[w.f][w.k], w.c.sexp))
+	// The attribution is relative to the code as it is now: the candidates are sets of repairs that are still
+	// missing in c04Fixes (the driver's qexplain starts from the code without any repair, where two defects can
+	// cancel each other or a repaired defect gets the blame).  Smallest sets first; a set explains a wrong answer
+	// when the model with c04Fixes plus that set gives the reference answer or rejects the program.
+	ans = make([]string, len(wrong))
+	var zeros []int
+	for i, ch := range c04Fixes {
+		if ch == '0' {
+			zeros = append(zeros, i)
+		}
 	}
-	ans, err = askPar(c.Drv, ops, 12)
-	if err != nil {
-		return err
+	var cands [][]int
+	for size := 1; size <= 3 && size <= len(zeros); size++ {
+		cands = append(cands, qSubsets(zeros, size)...)
+	}
+	if len(zeros) > 3 {
+		cands = append(cands, zeros)
+	}
+	for _, cand := range cands {
+		fx := []byte(c04Fixes)
+		var names []string
+		for _, i := range cand {
+			fx[i] = '1'
+			names = append(names, c04FixNames[i])
+		}
+		var idx []int
+		ops = nil
+		for i, w := range wrong {
+			if ans[i] == "" {
+				idx = append(idx, i)
+				ops = append(ops, fmt.Sprintf("qeval %s %d %d %s %s", fx, c04Fuel, w.f, w.c.tuples[w.f][w.k], w.c.sexp))
+			}
+		}
+		// one op per driver process: an attribution that runs to the end of the fuel holds nothing else up
+		got, err := askParChunk(c.Drv, ops, 12, 1)
+		if err != nil {
+			return err
+		}
+		for j, i := range idx {
+			switch {
+			case got[j] == wrong[i].spec:
+				ans[i] = strings.Join(names, "+")
+			case got[j] == "cerr":
+				ans[i] = strings.Join(names, "+") + ":rejected"
+			}
+		}
+	}
+	for i := range ans {
+		if ans[i] == "" {
+			ans[i] = "unexplained"
+		}
 	}
 	// one finding per repair: a wrong answer that needs several repairs is a witness of each of them, but
 	// witnesses with a single cause are preferred (they are reported first)
@@ -809,6 +1070,45 @@ func c04Spec(c *Ctx, cases []*qCase, nTuples int) error {
 		}
 	}
 	return nil
+}
+
+var c04FixNames = []string{"frame", "ifJump", "orPop", "range", "shadow", "forClause", "assignOp", "ifInit", "argSig"}
+
+// qSubsets lists the subsets of xs with k elements, in lexicographic order.
+func qSubsets(xs []int, k int) [][]int {
+	if k == 0 {
+		return [][]int{nil}
+	}
+	if len(xs) < k {
+		return nil
+	}
+	var out [][]int
+	for _, s := range qSubsets(xs[1:], k-1) {
+		out = append(out, append([]int{xs[0]}, s...))
+	}
+	return append(out, qSubsets(xs[1:], k)...)
+}
+
+// qDeviationKind classifies how a real call fails against Go's meaning (impl and spec in the form of qCallReal / showSpec).
+func qDeviationKind(impl, spec string) (string, string) {
+	kind := func(s string) string { return strings.SplitN(strings.TrimSuffix(s, "!stack"), ":", 2)[0] }
+	switch {
+	case impl == "timeout":
+		return "vm-does-not-terminate", "quasigo.Call does not return (killed at the deadline) on a call that terminates in Go"
+	case impl == "memory":
+		return "vm-out-of-memory", "quasigo.Call allocates without bound (killed at the memory cap) on a call that terminates in Go"
+	case strings.HasPrefix(impl, "died"):
+		return "vm-" + strings.ReplaceAll(impl, ":", "-"), "quasigo.Call kills the process (fatal error of the Go runtime) on a call that terminates in Go"
+	case strings.HasPrefix(impl, "panic:") && !strings.HasPrefix(spec, "panic:"):
+		return "vm-panics:" + strings.TrimPrefix(impl, "panic:"), "quasigo.Call panics where the function returns a value in Go"
+	case strings.HasPrefix(spec, "panic:") && !strings.HasPrefix(impl, "panic:"):
+		return "vm-misses-panic:" + strings.TrimPrefix(spec, "panic:"), "quasigo.Call returns a value where the function panics in Go"
+	case strings.HasPrefix(impl, "panic:"):
+		return "vm-wrong-panic", "quasigo.Call panics differently from Go"
+	case strings.TrimSuffix(impl, "!stack") == spec:
+		return "vm-stack-not-restored", "quasigo.Call returns the right value but does not cut the value stacks back to the arguments"
+	}
+	return "vm-wrong-result:" + kind(spec), "quasigo.Call returns something else than the function means in Go"
 }
 
 func qGoLit(v interface{}) string {
@@ -904,6 +1204,10 @@ func c04GoRun(c *Ctx, points []qPoint) error {
 	if len(points) == 0 {
 		return nil
 	}
+	if os.Getenv("C04_DEBUG") != "" {
+		t0 := time.Now()
+		defer func() { fmt.Fprintf(os.Stderr, "C04_DEBUG go run: %.1fs\n", time.Since(t0).Seconds()) }()
+	}
 	dir, err := os.MkdirTemp("", "c04gorun")
 	if err != nil {
 		return err
@@ -960,6 +1264,9 @@ func c04GoRun(c *Ctx, points []qPoint) error {
 			file.WriteString("\nfunc main() {\n")
 			file.Write(b.body.Bytes())
 			file.WriteString("\tout.Flush()\n}\n")
+			if keep := os.Getenv("C04_KEEP"); keep != "" {
+				_ = os.WriteFile(fmt.Sprintf("%s-%d.go", keep, bi), file.Bytes(), 0o644)
+			}
 			if err := os.WriteFile(filepath.Join(d, "main.go"), file.Bytes(), 0o644); err != nil {
 				mu.Lock()
 				firstErr = err
